@@ -89,9 +89,9 @@ pub fn run(run: &mut Run) {
     run.assumptions = vec!["reference model refchess: attackers() by walking offsets and rays".into()];
     let thorough = run.thorough();
     let sel = if thorough {
-        Sel { m3: true, ray: Some(3), ep: Some(false), castle: Some(false), promo: Some(false), reach: Some(4), m4: Some(crate::universe::M4_SHARDS), occ: true, pin2: Some(4), hist: Some((4, 3)), multicheck: Some(3), checkpin: Some(3), castle2: true, hemmed: true, counts: true, promorow: true, backrank: true, ..Default::default() }
+        Sel { m3: true, ray: Some(3), ep: Some(false), castle: Some(false), promo: Some(false), reach: Some(4), m4: Some(crate::universe::M4_SHARDS), occ: true, pin2: Some(4), hist: Some((4, 3)), multicheck: Some(3), checkpin: Some(3), castle2: true, hemmed: true, aligned: true, counts: true, promorow: true, backrank: true, ..Default::default() }
     } else {
-        Sel { m3: true, ray: Some(2), ep: Some(false), castle: Some(false), promo: Some(false), reach: Some(3), occ: true, hist: Some((3, 2)), multicheck: Some(2), checkpin: Some(1), castle2: true, hemmed: true, counts: true, promorow: true, backrank: true, ..Default::default() }
+        Sel { m3: true, ray: Some(2), ep: Some(false), castle: Some(false), promo: Some(false), reach: Some(3), occ: true, hist: Some((3, 2)), multicheck: Some(2), checkpin: Some(1), castle2: true, hemmed: true, aligned: true, counts: true, promorow: true, backrank: true, ..Default::default() }
     };
     run_universes(run, &sel, DISAGREE, &check_pos);
 }
